@@ -231,6 +231,7 @@ def contracts(tier):
     from .c10_unsupported_requests_stall import make_control_endpoint_wiring
     yield ("USBControlEndpoint", "wiring_setup_decoder", make_control_endpoint_wiring("standard", {"setup_decoder"}, ep=0))
     yield ("USBDevice", "wiring_setup_decoder_utmi", device_hookup)
+    # a control endpoint that is not endpoint 0 (the endpoint number must reach the decoder)
+    yield ("USBControlEndpoint", "wiring_setup_decoder_acm_ep2", make_control_endpoint_wiring("acm", {"setup_decoder"}, ep=2))
     if tier == "thorough":
         yield ("USBDevice", "wiring_setup_decoder_ulpi", lambda c: device_hookup(c, "ulpi"))
-        yield ("USBControlEndpoint", "wiring_setup_decoder_acm_ep2", make_control_endpoint_wiring("acm", {"setup_decoder"}, ep=2))
